@@ -53,6 +53,10 @@ def jobs(tier, seed):
     return out
 
 
+class StopDrive(Exception):
+    """the interpreter process is gone (killed after exceeding the progress bound, or died): nothing more can be driven"""
+
+
 def drive(s, su, seed, scale, stats, notes, miri=False):
     """the workload. Every reply is inspected by `look`; returns nothing (verdicts via notes)."""
     rnd = proto.pyrng("c12", su, seed, str(scale))
@@ -62,8 +66,10 @@ def drive(s, su, seed, scale, stats, notes, miri=False):
         stats["calls"] += 1
         if r.get("timeout"):
             notes.append(("timeout", what, r))
+            raise StopDrive()
         elif r.get("died"):
             notes.append(("died", what, r))
+            raise StopDrive()
         elif r.get("panic"):
             notes.append(("panic", what, r))
         if r.ok:
@@ -322,8 +328,11 @@ def run_job(job):
     t0 = time.time()
     s = okv.Session(su, tee=script, record=True)
     s.call_timeout = 120
+    stopped = False
     try:
         drive(s, su, job["seed"], job["scale"], stats, notes, miri=bool(job.get("miri")))
+    except StopDrive:
+        stopped = True
     finally:
         native = list(s.raw)
         s.close()
@@ -356,7 +365,8 @@ def run_job(job):
                     "top_errors": sorted(stats["errs"].items(), key=lambda kv: -kv[1])[:5]})
     inconcl = []
     # ------------------------------------------------------------- other build flavours on the same script
-    for fl in job.get("replay", []):
+    # (not when the production run already died or hung: the replays would only repeat that)
+    for fl in ([] if stopped else job.get("replay", [])):
         outp = script + "." + fl
         env = dict(os.environ)
         if fl == "asan":
@@ -378,7 +388,7 @@ def run_job(job):
                 os.remove(f_)
             except OSError:
                 pass
-    if job.get("valgrind"):
+    if job.get("valgrind") and not stopped:
         outp = script + ".vg"
         t1 = time.time()
         try:
@@ -394,7 +404,7 @@ def run_job(job):
             os.remove(outp)
         except OSError:
             pass
-    if job.get("miri"):
+    if job.get("miri") and not stopped:
         outp = script + ".miri"
         env = dict(os.environ, MIRIFLAGS="-Zmiri-disable-isolation", CARGO_NET_OFFLINE="true")
         env.pop("RUSTFLAGS", None)
